@@ -77,4 +77,35 @@ def effective (own layout master : Option Int) : Option Int :=
     | some v => some v
     | none => master
 
+/-- `LayoutPlaceholder._base_placeholder`: the type of the master placeholder a layout placeholder of type `ty`
+    inherits from (`none`: nothing to inherit from) -/
+def masterType (ty : Str) : Option Str :=
+  if ty == "title".toList || ty == "ctrTitle".toList then some "title".toList
+  else if ty == "dt".toList then some "dt".toList
+  else if ty == "ftr".toList then some "ftr".toList
+  else if ty == "sldNum".toList then some "sldNum".toList
+  else if ty == "body".toList || ty == "chart".toList || ty == "clipArt".toList || ty == "dgm".toList
+       || ty == "media".toList || ty == "obj".toList || ty == "pic".toList || ty == "subTitle".toList
+       || ty == "tbl".toList then some "body".toList
+  else none
+
+/-- `placeholders.get(...)`: the FIRST placeholder, in document order, that matches -/
+def firstWith {α : Type} (p : α → Bool) (l : List α) : Option α := l.find? p
+
+/-- geometry a slide placeholder reports for one attribute: `own`, else that of the first layout placeholder with the
+    same idx (`lay`: (idx, type, value) in document order), whose own value wins over that of the first master
+    placeholder (`mas`: (type, value)) of the mapped type -/
+def reported (own : Option Int) (idx : Nat) (lay : List (Nat × Str × Option Int)) (mas : List (Str × Option Int)) : Option Int :=
+  match own with
+  | some v => some v
+  | none => match firstWith (fun e => e.1 == idx) lay with
+    | none => none
+    | some (_, ty, lv) => match lv with
+      | some v => some v
+      | none => match masterType ty with
+        | none => none
+        | some mt => match firstWith (fun e => e.1 == mt) mas with
+          | none => none
+          | some (_, mv) => mv
+
 end Pptx.Placeholder
